@@ -1250,3 +1250,149 @@ func TestC07BacklogSiblingClose(t *testing.T) {
 		col.Case(true, hx.JSON(desc), func() any { return desc })
 	})
 }
+
+// TestC07Scale: (a) more connections than any page, shard or bit set of a registry is likely
+// to hold (65-300 subscribers, each event exactly once per open matching subscription);
+// (b) one connection that opens and closes hundreds of subscriptions (a closed one never
+// receives anything again, the one that stays open receives everything).
+func TestC07Scale(t *testing.T) {
+	col := ev.For("C07").SetRule(c07Rule)
+	rapid.Check(t, func(t *rapid.T) {
+		authors := gen.Pubkeys(2)
+		if rapid.Bool().Draw(t, "many_connections") {
+			n := rapid.SampledFrom([]int{63, 64, 65, 66, 100, 128, 129, 257, 300}).Draw(t, "subscribers")
+			m := rapid.IntRange(3, 12).Draw(t, "events")
+			router := mocrelay.NewRouterHandler(m + 4)
+			desc := map[string]any{"mode": "scale: many connections", "subscribers": n, "events": m}
+			failf := func(sig, clause, obs string) {
+				hx.Fail(t, ev.Failure{Property: "C07", Signature: sig, Clause: clause, Case: desc, Observed: obs})
+			}
+			conns := make([]*rconn, n)
+			for i := range conns {
+				c := newRConn(i, router)
+				defer c.end(false)
+				conns[i] = c
+				// every third subscriber only wants kind 7
+				k := int64(1)
+				if i%3 == 2 {
+					k = 7
+				}
+				if err := c.put(&mocrelay.ClientReqMsg{SubscriptionID: fmt.Sprint("s", i), ReqFilters: []*mocrelay.ReqFilter{{Kinds: []int64{k}}}}, stepTimeout); err != nil {
+					failf("stalled", "REQ is taken", err.Error())
+				}
+				if m, ok := c.next(stepTimeout); !ok {
+					failf("no-eose", "every REQ is answered by EOSE", "no EOSE")
+				} else if _, is := m.(*mocrelay.ServerEOSEMsg); !is {
+					failf("no-eose", "every REQ is answered by EOSE", hx.JSON(briefServer(m)))
+				}
+			}
+			p := newRConn(100000, router)
+			defer p.end(false)
+			var want1, want7 []string
+			for k := 0; k < m; k++ {
+				kind := int64(1)
+				if k%4 == 3 {
+					kind = 7
+				}
+				e := &mocrelay.Event{Pubkey: authors[0], Kind: kind, CreatedAt: int64(1000 + k), Tags: []mocrelay.Tag{}, Content: fmt.Sprint("scale", k)}
+				gen.Seal(e)
+				if err := p.put(&mocrelay.ClientEventMsg{Event: e}, stepTimeout); err != nil {
+					failf("stalled", "EVENT is taken", err.Error())
+				}
+				if _, ok := p.next(stepTimeout); !ok {
+					failf("ok-missing", "every EVENT is answered by an accepting OK", "no OK")
+				}
+				if kind == 1 {
+					want1 = append(want1, e.ID)
+				} else {
+					want7 = append(want7, e.ID)
+				}
+			}
+			for i, c := range conns {
+				want := want1
+				if i%3 == 2 {
+					want = want7
+				}
+				var got []string
+				for len(got) < len(want) {
+					msg, ok := c.next(2 * time.Second)
+					if !ok {
+						break
+					}
+					if em, is := msg.(*mocrelay.ServerEventMsg); is {
+						if em.SubscriptionID != fmt.Sprint("s", i) {
+							failf("delivery-extra", "deliveries are labelled with the subscription's own id", hx.JSON(briefServer(msg)))
+						}
+						got = append(got, em.Event.ID)
+					}
+				}
+				if extra, ok := c.next(3 * time.Millisecond); ok {
+					failf("delivery-extra", "every open matching subscription receives a published event exactly once", fmt.Sprintf("subscriber %d of %d got an extra message %s", i, n, hx.JSON(briefServer(extra))))
+				}
+				if hx.JSON(got) != hx.JSON(want) {
+					failf("delivery-missing", "every subscription of any connection that was open and matches receives the event exactly once, in publication order", fmt.Sprintf("subscriber %d of %d received %d of %d events: %s", i, n, len(got), len(want), hx.JSON(gen.ShortAll(got))))
+				}
+			}
+			col.Label("mode:scale-connections")
+			col.Case(n > 64, hx.JSON(desc), func() any { return desc })
+			return
+		}
+		cycles := rapid.SampledFrom([]int{255, 256, 257, 300, 520, 1030}).Draw(t, "cycles")
+		router := mocrelay.NewRouterHandler(8)
+		desc := map[string]any{"mode": "scale: REQ/CLOSE cycles on one connection", "cycles": cycles}
+		failf := func(sig, clause, obs string) {
+			hx.Fail(t, ev.Failure{Property: "C07", Signature: sig, Clause: clause, Case: desc, Observed: obs})
+		}
+		s := newRConn(0, router)
+		defer s.end(false)
+		p := newRConn(1, router)
+		defer p.end(false)
+		req := func(id string) {
+			if err := s.put(&mocrelay.ClientReqMsg{SubscriptionID: id, ReqFilters: []*mocrelay.ReqFilter{{Kinds: []int64{1}}}}, stepTimeout); err != nil {
+				failf("stalled", "REQ is taken", err.Error())
+			}
+			if m, ok := s.next(stepTimeout); !ok {
+				failf("no-eose", "every REQ is answered by EOSE", "no EOSE")
+			} else if _, is := m.(*mocrelay.ServerEOSEMsg); !is {
+				failf("no-eose", "every REQ is answered by EOSE", hx.JSON(briefServer(m)))
+			}
+		}
+		req("control")
+		checkEvery := rapid.SampledFrom([]int{1, 7, 64}).Draw(t, "check_every")
+		for i := 0; i < cycles; i++ {
+			id := fmt.Sprint("view-", i)
+			req(id)
+			if err := s.put(&mocrelay.ClientCloseMsg{SubscriptionID: id}, stepTimeout); err != nil {
+				failf("stalled", "CLOSE is taken", err.Error())
+			}
+			if i%checkEvery != 0 && i != cycles-1 {
+				continue
+			}
+			// CLOSE has no reply: a COUNT round trip on the same connection orders the check behind it
+			if err := s.put(&mocrelay.ClientCountMsg{SubscriptionID: "sync", ReqFilters: []*mocrelay.ReqFilter{{}}}, stepTimeout); err != nil {
+				failf("stalled", "COUNT is taken", err.Error())
+			}
+			if _, ok := s.next(stepTimeout); !ok {
+				failf("stalled", "COUNT is answered", "no COUNT reply")
+			}
+			e := &mocrelay.Event{Pubkey: authors[0], Kind: 1, CreatedAt: int64(1000 + i), Tags: []mocrelay.Tag{}, Content: fmt.Sprint("cycle", i)}
+			gen.Seal(e)
+			if err := p.put(&mocrelay.ClientEventMsg{Event: e}, stepTimeout); err != nil {
+				failf("stalled", "EVENT is taken", err.Error())
+			}
+			if _, ok := p.next(stepTimeout); !ok {
+				failf("ok-missing", "every EVENT is answered by an accepting OK", "no OK")
+			}
+			m, ok := s.next(stepTimeout)
+			em, is := m.(*mocrelay.ServerEventMsg)
+			if !ok || !is || em.SubscriptionID != "control" || em.Event.ID != e.ID {
+				failf("delivery-missing", "the subscription that stays open receives every event", fmt.Sprintf("after cycle %d: %s", i, hx.JSON(briefServer(m))))
+			}
+			if extra, ok := s.next(2 * time.Millisecond); ok {
+				failf("delivery-extra", "no subscription that was closed before receives the event", fmt.Sprintf("after cycle %d (CLOSE %s): %s", i, id, hx.JSON(briefServer(extra))))
+			}
+		}
+		col.Label("mode:scale-cycles")
+		col.Case(cycles > 256, hx.JSON(desc), func() any { return desc })
+	})
+}
